@@ -35,6 +35,9 @@ CERT_DEFECTS = {
     "ca-expired": {"ca0": {"not_before": -30 * DAY, "not_after": -DAY}},
     "root-expired": {"root": {"not_before": -300 * DAY, "not_after": -DAY}},
     "issuer-no-basic-constraints": {"ca0": {"ca": None}},
+    # an issuer certificate that carries no extension at all (v3 without the extensions field, or v1): nothing says it is a CA
+    "issuer-no-extensions": {"ca0": {"ca": None, "ku": None}},
+    "issuer-v1-no-extensions": {"ca0": {"version": 0, "ca": None, "ku": None}},
     "issuer-ca-false": {"ca0": {"ca": False}},
     "issuer-ca-explicit-false": {"ca0": {"ca": "explicit-false", "path_len": None}},
     "issuer-no-keycertsign": {"ca0": {"ku": ["digitalSignature"]}},
